@@ -9,6 +9,7 @@
 From Coq Require Import List NArith ZArith String.
 Import ListNotations.
 From PP Require Import Base Syntax Spec SpecSyn SpecMono SpecNoErr SpecWf SpecTerm SpecCert Grammars.
+From PP Require Front FrontProof.
 
 Theorem C10_meta_refs_defined : all_grammar (ref_defined meta_grammar) meta_grammar = true.
 Proof. vm_compute. reflexivity. Qed.
@@ -48,8 +49,23 @@ Example reader_rejects :
   exists t, parse meta_grammar 400 meta_grammar_start [97; 32; 61; 32; 123]%N 0 = Fail t.
 Proof. eexists. vm_compute. reflexivity. Qed.
 
+(* ---- python-pest's own front end, as modelled (Front.v: a function-by-function transcription of
+   scanner.py, grammar/parser.py, unescape.py and Parser.from_grammar with optimizer=None, every Python
+   operation that can raise made explicit; tied to the code on every run: identical rule table -
+   names, modifiers, docs, tags, expression trees - or identical error position on every generated
+   text): for EVERY text it returns a rule table or a grammar syntax error - no other exception, and the
+   fuel it runs on always suffices - and an error position lies inside the text. Proof: FrontProof.v.
+   Not modelled: CPython's recursion limit (the library turns it into a grammar error), message texts. *)
+Theorem C10_front_end_total : forall t,
+  match Front.front t with Front.FOk _ | Front.FSyntax _ => True | Front.FCrash _ | Front.FFuel => False end.
+Proof. exact FrontProof.front_total. Qed.
+Theorem C10_front_end_error_position : forall t p, Front.front t = Front.FSyntax p -> (p <= List.length t)%nat.
+Proof. exact FrontProof.front_error_position. Qed.
+
 Print Assumptions C10_meta_refs_defined.
 Print Assumptions C10_reader_never_stuck.
 Print Assumptions C10_reader_verdict_stable.
 Print Assumptions C10_reader_tree_wellformed.
 Print Assumptions C10_reader_terminates.
+Print Assumptions C10_front_end_total.
+Print Assumptions C10_front_end_error_position.
